@@ -32,7 +32,11 @@ static uint64_t s_len(const char* c) { return s_len_x(c); }
 /* constructors / destructor */
 void F__ZNSt7__cxx1112basic_stringIcSt11char_traitsIcESaIcEEC2Ev(char* s) { s_init(s); }
 void F__ZNSt7__cxx1112basic_stringIcSt11char_traitsIcESaIcEEC2ERKS3_(char* s, char* al) { s_init(s); }
-void F__ZNSt7__cxx1112basic_stringIcSt11char_traitsIcESaIcEEC2IS3_EEPKcRKS3_(char* s, char* lit, char* al) { s_set(s, lit, s_len(lit)); }
+void F__ZNSt7__cxx1112basic_stringIcSt11char_traitsIcESaIcEEC2IS3_EEPKcRKS3_(char* s, char* lit, char* al) { s_set(s, lit, s_len(lit));
+#ifdef STRING_LITERALS_OPAQUE
+  *(char**)(S_BUF(s) + 8) = lit;      /* the (empty) opaque string remembers which literal it was built from: a recorder may read it (S_LITERAL_OF) */
+#endif
+}
 void F__ZNSt7__cxx1112basic_stringIcSt11char_traitsIcESaIcEEC2EPKcmRKS3_(char* s, char* p, uint64_t n, char* al) { s_set(s, p, n); }
 void F__ZNSt7__cxx1112basic_stringIcSt11char_traitsIcESaIcEEC2ISt17basic_string_viewIcS2_EvEERKT_RKS3_(char* s, char* sv, char* al) { s_set(s, *(char**)(sv + 8), *(uint64_t*)sv); }
 void F__ZNSt7__cxx1112basic_stringIcSt11char_traitsIcESaIcEEC2ENS4_12__sv_wrapperERKS3_(char* s, uint64_t len, char* p, char* al) { s_set(s, p, len); }
